@@ -69,7 +69,7 @@ def cases(draw):
                    st.tuples(st.just("checkpoint"), st.integers(0, 2)), st.tuples(st.just("restore")),
                    st.tuples(st.just("set_samplers"), gen.lineup_spec(kinds=["halton", "rseq", "uniform", "pso"], min_len=1,
                                                                       max_len=3, max_bs=2)),
-                   st.tuples(st.just("new_run"), st.integers(0, len(cfgs) - 1), st.integers(0, 2)))
+                   st.tuples(st.just("new_run"), st.integers(0, len(cfgs) - 1), st.integers(-1, 2)))
     ops = [["new_run", 0, 0]] + [list(o) for o in draw(st.lists(op, min_size=1, max_size=8))]
     if draw(st.integers(0, 2)) == 0 and len(cfgs) >= 2:
         # make sure folder reuse by another run (after the first one wrote something) is well represented
@@ -148,7 +148,7 @@ def check_json(ctx: Ctx, case):
                     cfg = cfgs[op[1]]
                     run_id += 1
                     model = models.get(cfg["model"], cfg["D"])
-                    cal = build(cfg, folders[op[2]])
+                    cal = build(cfg, folders[op[2]] if op[2] >= 0 else None)   # -1: a calibrator without a saving folder
                     continue
                 if op[0] == "calibrate":
                     try:
@@ -160,7 +160,7 @@ def check_json(ctx: Ctx, case):
                             classes.add("third-party-abort")
                             break
                         raise
-                    wrote = cal.saving_folder
+                    wrote = cal.saving_folder   # None when the run has no saving folder: nothing was written
                 elif op[0] == "checkpoint":
                     cal.create_checkpoint(folders[op[1]])
                     wrote = folders[op[1]]
@@ -172,7 +172,7 @@ def check_json(ctx: Ctx, case):
                     classes.add("set_samplers")
                     continue
                 elif op[0] == "restore":
-                    if owner.get(cal.saving_folder) != run_id:
+                    if cal.saving_folder is None or owner.get(cal.saving_folder) != run_id:
                         continue
                     cal = Calibrator.restore_from_checkpoint(cal.saving_folder, model)
                     classes.add("restore-and-continue")
